@@ -282,7 +282,7 @@ Definition op_delete_data (m : pmgr) (rid name : N) : pmgr * list pwrite :=
     (upd_repo m rid r', [WRepo rid r'])
   end.
 
-(* deleteRepo (:1006): the blob is deleted; the id maps are edited in memory only *)
+(* deleteRepo: the blob is deleted, the id maps are edited in memory and then saved (putCaches) *)
 Definition op_delete_repo (m : pmgr) (rid : N) : pmgr * list pwrite :=
   match aget rid (m_repos m) with
   | None => (m, [])
@@ -290,7 +290,7 @@ Definition op_delete_repo (m : pmgr) (rid : N) : pmgr * list pwrite :=
     let v2u := fold_left (fun acc v => adel v acc) (repo_versions r) (m_v2u m) in
     ({| m_r2u := adel rid (m_r2u m); m_v2u := v2u; m_rid := m_rid m; m_vid := m_vid m; m_iid := m_iid m;
         m_repos := adel rid (m_repos m); m_mut := adel rid (m_mut m); m_heads := adel rid (m_heads m) |},
-     [WDelRepo rid])
+     [WDelRepo rid; WR2U (adel rid (m_r2u m)); WV2U v2u])
   end.
 
 (* newMutationID (:2757) *)
@@ -356,6 +356,10 @@ Definition leaf_heads (r : prepo) : list (N * N) :=
 Definition branch_leaves (r : prepo) (br : N) : list N :=
   map fst (filter (fun vn => match pn_children (snd vn) with [] => pn_branch (snd vn) =? br | _ => false end) (pr_nodes r)).
 
+(* the version id names a node of some loaded repo *)
+Definition version_live (repos : list (N * prepo)) (v : N) : bool :=
+  existsb (fun ib => existsb (N.eqb v) (repo_versions (snd ib))) repos.
+
 Definition max_key {V} (m : list (N * V)) : N := fold_left (fun a kv => N.max a (fst kv)) m 0.
 
 (* loadMetadata / loadVersion0.  The result carries the writes recovery itself issues, in order:
@@ -372,9 +376,11 @@ Definition recover (C : pconf) (img : image) : res (pmgr * list pwrite) :=
     let v2u := match i_v2u img with Some m => m | None => [] end in
     if negb (forallb (fun ib => amem (fst ib) r2u) (i_repos img)) then Err   (* "repo with id not in map. Corrupt DB?" *)
     else
-      let v2u' := repair_v2u (i_repos img) v2u in
+      let v2u1 := repair_v2u (i_repos img) v2u in
       let r2u' := filter (fun iu => amem (fst iu) (i_repos img)) r2u in      (* "Found empty repo id ... deleting" *)
-      let save_cache := negb (Nat.eqb (length r2u') (length r2u)) || negb (Nat.eqb (length v2u') (length v2u)) in
+      let v2u' := filter (fun vu => version_live (i_repos img) (fst vu)) v2u1 in   (* "Found version id ... that is in no repo... deleting" *)
+      let save_cache := negb (Nat.eqb (length r2u') (length r2u)) || negb (Nat.eqb (length v2u1) (length v2u))
+                        || negb (Nat.eqb (length v2u') (length v2u1)) in
       let w1 := if save_cache then [WR2U r2u'; WV2U v2u'] else [] in
       let w2 := if fmt =? 1 then [] else [WFmt 1] in
       let muts := map (fun iu =>
